@@ -403,6 +403,11 @@ pub enum SourceSpec {
     /// the n-th seek() of the stream fails ONCE with an I/O error (a disk error at the moment a transfer starts and the
     /// source is rewound); the stream works again afterwards
     StreamFailingSeek(ReadSched, u32),
+    /// a content-encoded object handed over as a stream: the application encodes the content itself
+    /// (`sender::compress::compress_stream`), gives flute the ENCODED stream with the cenc in the transfer
+    /// configuration, and then sets `content_length` / `md5` of the description to those of the content.
+    /// (With cenc = Null this is a plain stream.)
+    PreEncodedStream(ReadSched),
     /// real temp file (cache_in_ram = false)
     File,
     /// real temp file read into RAM by flute (cache_in_ram = true)
@@ -539,6 +544,9 @@ impl ObjectSpec {
         let cfg = self.transfer_config()?;
         let url = url::Url::parse(&self.location).map_err(|e| format!("url {:?}", e))?;
         let data = self.content();
+        if let SourceSpec::PreEncodedStream(sched) = &self.source {
+            return self.build_pre_encoded(data, sched, &url, cfg);
+        }
         if self.via_builder {
             use flute::sender::{CreateFromBuffer, CreateFromFile, CreateFromStream};
             let r = match &self.source {
@@ -561,6 +569,7 @@ impl ObjectSpec {
                     s.pos = (s.data.len() as u64 * (*permille).min(1000) as u64 + 999) / 1000;
                     CreateFromStream::builder().stream(Box::new(s)).content_type(self.ctype.clone()).content_location(url).compute_md5(self.md5).config(cfg).build().create()
                 }
+                SourceSpec::PreEncodedStream(_) => unreachable!(),
                 SourceSpec::File | SourceSpec::FileInRam => {
                     let path = scratch.join(format!("src-{}.bin", idx));
                     std::fs::write(&path, &data).map_err(|e| format!("write temp {:?}", e))?;
@@ -598,6 +607,7 @@ impl ObjectSpec {
                 s.fail_seek_nth = Some(*nth);
                 ObjectDesc::create_from_stream(Box::new(s), &self.ctype, &url, self.md5, cfg)
             }
+            SourceSpec::PreEncodedStream(_) => unreachable!(),
             SourceSpec::File | SourceSpec::FileInRam => {
                 let path = scratch.join(format!("src-{}.bin", idx));
                 std::fs::write(&path, &data).map_err(|e| format!("write temp {:?}", e))?;
@@ -612,6 +622,37 @@ impl ObjectSpec {
             }
         };
         r.map_err(|e| format!("{:?}", e))
+    }
+
+    /// The pre-encoded stream variant (see `SourceSpec::PreEncodedStream`).
+    fn build_pre_encoded(&self, data: Vec<u8>, sched: &ReadSched, url: &url::Url, cfg: TransferConfig) -> Result<Box<ObjectDesc>, String> {
+        let cenc = self.cenc.build();
+        if cenc == flute::core::lct::Cenc::Null {
+            return ObjectDesc::create_from_stream(Box::new(SimStream::new(data, sched.clone())), &self.ctype, url, self.md5, cfg).map_err(|e| format!("{:?}", e));
+        }
+        let mut enc: Vec<u8> = Vec::new();
+        flute::sender::compress::compress_stream(&mut std::io::Cursor::new(&data), cenc, &mut enc).map_err(|e| format!("{:?}", e))?;
+        let mut obj = if self.via_builder {
+            flute::sender::CreateFromStream::builder()
+                .stream(Box::new(SimStream::new(enc, sched.clone())))
+                .content_type(self.ctype.clone())
+                .content_location(url.clone())
+                .compute_md5(false)
+                .config(cfg)
+                .build()
+                .create()
+        } else {
+            ObjectDesc::create_from_stream(Box::new(SimStream::new(enc, sched.clone())), &self.ctype, url, false, cfg)
+        }
+        .map_err(|e| format!("{:?}", e))?;
+        obj.content_length = data.len() as u64;
+        obj.md5 = if self.md5 {
+            use base64::Engine;
+            Some(base64::engine::general_purpose::STANDARD.encode(md5::compute(&data).0))
+        } else {
+            None
+        };
+        Ok(obj)
     }
 
     /// Effective OTI of the object given the sender's default.
